@@ -357,3 +357,98 @@ if __name__ == '__main__':
             print(' ', m)
     finally:
         shutil.rmtree(wd, ignore_errors=True)
+
+
+# ------------------------------------------------------------------------------------------
+# "a parameter index beyond the arity": for every clause macro that binds _1 … _15, every arity n and every index k:
+# `int(_k)` compiles iff k <= n; for k > n the diagnostic is "illegal argument".
+
+ARITY_PLAIN = ['WITH', 'LR_WITH', 'SIDE_EFFECT', 'LR_SIDE_EFFECT', 'RETURN', 'LR_RETURN', 'THROW', 'LR_THROW']
+ARITY_CORO = ['CO_RETURN', 'LR_CO_RETURN', 'CO_THROW', 'LR_CO_THROW', 'CO_YIELD', 'LR_CO_YIELD']
+
+
+def arity_prelude(coro):
+    lines = ['#include <trompeloeil.hpp>']
+    if coro:
+        lines.append('#include "mini_coro.hpp"')
+    ret = 'farm::vtask<int>' if coro else 'int'
+    for n in range(16):
+        lines.append('struct A%d {' % n)
+        lines.append('  MAKE_MOCK%d(f, %s(%s));' % (n, ret, ', '.join(['int'] * n)))
+        lines.append('};')
+    return '\n'.join(lines) + '\n'
+
+
+def arity_clause(macro, k):
+    use = 'int(_%d)' % k
+    base = macro.replace('LR_', '')
+    if base == 'WITH':
+        return '.%s(%s == 0).RETURN(0)' % (macro, use)
+    if base == 'SIDE_EFFECT':
+        return '.%s((void)%s).RETURN(0)' % (macro, use)
+    if base in ('RETURN', 'THROW', 'CO_RETURN', 'CO_THROW'):
+        return '.%s(%s)' % (macro, use)
+    if base == 'CO_YIELD':
+        return '.%s(%s).CO_RETURN(0)' % (macro, use)
+    raise KeyError(macro)
+
+
+def arity_case(macro, n, k, idx):
+    return ('static void case_%d()\n{\n  A%d obj;\n  auto e = NAMED_REQUIRE_CALL(obj, f(%s))%s;\n  (void)e;\n}\n'
+            % (idx, n, ', '.join(['trompeloeil::_'] * n), arity_clause(macro, k)))
+
+
+def run_beyond_arity(tier, workdir):
+    """-> (failures [(macro, n, k, expected, what, source)], number of translation units)"""
+    q = tier == 'quick'
+    arities = [0, 1, 2, 9, 14] if q else list(range(15))
+    inc = ['-I' + os.path.join(REPO, 'include'), '-I' + os.path.join(VERIF, 'harness', 'farm')]
+    os.makedirs(workdir, exist_ok=True)
+    pch = {}
+    for coro in (False, True):
+        std = 'c++20' if coro else 'c++17'
+        hp = os.path.join(workdir, 'arity_%s.hpp' % std)
+        with open(hp, 'w') as f:
+            f.write(arity_prelude(coro))
+        r = sh(['g++', '-std=' + std, '-x', 'c++-header'] + inc + [hp, '-o', hp + '.gch'])
+        if r.returncode != 0:
+            return [('<prelude>', 0, 0, 'compiles', 'prelude does not compile: ' + r.stderr[:800], arity_prelude(coro))], 0
+        pch[coro] = (std, hp)
+    jobs = []
+    idx = 0
+    for macros, coro in ((ARITY_PLAIN, False), (ARITY_CORO, True)):
+        for macro in macros:
+            # positives: every legal index of every arity of the tier, one translation unit per macro
+            pos = [(n, k) for n in arities for k in ([1, n] if n > 1 else [1] if n == 1 else [])]
+            src = ''
+            for n, k in sorted(set(pos)):
+                idx += 1
+                src += arity_case(macro, n, k, idx)
+            jobs.append(('ok', coro, macro, None, None, src))
+            for n in arities:
+                ks = sorted(set([n + 1, 15])) if q else list(range(n + 1, 16))
+                for k in ks:
+                    idx += 1
+                    jobs.append(('bad', coro, macro, n, k, arity_case(macro, n, k, idx)))
+
+    def one(j):
+        kind, coro, macro, n, k, src = j
+        std, hp = pch[coro]
+        path = os.path.join(workdir, 'ar_%s_%s_%s_%s.cpp' % (kind, macro, n, k))
+        with open(path, 'w') as f:
+            f.write(src)
+        r = sh(['g++', '-std=' + std, '-fsyntax-only', '-Wno-unused', '-include', hp] + inc + [path])
+        return j, r.returncode, r.stderr
+    fails = []
+    with cf.ThreadPoolExecutor(NPROC) as ex:
+        for (kind, coro, macro, n, k, src), rc, err in ex.map(one, jobs):
+            if kind == 'ok' and rc != 0:
+                first = re.findall(r'error: [^\n]*', err)[:3]
+                fails.append((macro, n, k, 'compiles', 'a legal index does not compile: ' + ' | '.join(first)[:500], arity_prelude(coro) + src))
+            elif kind == 'bad' and rc == 0:
+                fails.append((macro, n, k, 'error: illegal argument', 'compiles', arity_prelude(coro) + src))
+            elif kind == 'bad' and 'illegal argument' not in err:
+                first = re.findall(r'error: [^\n]*', err)[:3]
+                fails.append((macro, n, k, 'error: illegal argument', 'fails with other diagnostics: ' + ' | '.join(first)[:500],
+                              arity_prelude(coro) + src))
+    return fails, len(jobs)
